@@ -118,16 +118,18 @@ def run(res, tier, seed, shard, nshards):
         H.in_sim(scen, watchdog=3000)
     # two connections of one process, each read by its own thread: whatever the library keeps per process (buffers, caches) must not
     # let the bytes of one connection show up in a frame of the other - every repository line of one reader as the preemption point
-    if shard == 1 % nshards:
-        two_connections_preempted(res, W, tier, seed)
+    two_connections_preempted(res, W, tier, seed, shard, nshards)
 
 
-def two_connections_preempted(res, W, tier, seed):
+def two_connections_preempted(res, W, tier, seed, shard, nshards):
     from ..sim import sched, shim
     from . import c12
     sched.install_line_monitor(shim.PREFIX)
-    for size, api in ((8000, "recv_frame"), (300, "recv_frame"), (20000, "recv"), (5000, "recv_data")) if tier == "quick" else \
-            [(n, a) for n in (100, 300, 4095, 4096, 8000, 16384, 20000, 70000) for a in ("recv_frame", "recv", "recv_data")]:
+    configs = ((8000, "recv_frame"), (300, "recv_frame"), (20000, "recv"), (5000, "recv_data")) if tier == "quick" else \
+        [(n, a) for n in (100, 300, 4095, 4096, 8000, 16384, 20000, 70000) for a in ("recv_frame", "recv", "recv_data")]
+    for ci, (size, api) in enumerate(configs):
+        if ci % nshards != shard:
+            continue
         pay = [bytes([0x41 + t]) * size for t in (0, 1)]
 
         def factory(size=size, api=api, pay=pay):
@@ -177,8 +179,8 @@ def two_connections_preempted(res, W, tier, seed):
             return issues, case, tuple(len(obs["got"][t]) for t in (0, 1)), S.switches > 0
 
         tag = ("two-connections", size, api)
-        c12.explore(res, factory, judge_, tag, "sweep", 400 if tier == "quick" else 5000, seed, "two_connection_schedules")
-        c12.explore(res, factory, judge_, tag, "random", 30 if tier == "quick" else 1500, seed, "two_connection_schedules")
+        c12.explore(res, factory, judge_, tag, "sweep", 400 if tier == "quick" else 3000, seed, "two_connection_schedules")
+        c12.explore(res, factory, judge_, tag, "random", 30 if tier == "quick" else 600, seed, "two_connection_schedules")
 
 
 def header_case(res, W, rng, c, nseg):
